@@ -45,6 +45,7 @@ type Place struct {
 	Ref      string // base ref (PStructPtr, PCell, PElem)
 	Idx      string // PElem absolute index
 	Name     string // PGlobal heap name
+	Heap     string // PCell / PElem: heap name
 	BaseSort Sort   // PStructPtr: struct sort at Ref; others: sort of the cell
 	Path     []int  // field path from the base
 	Sort     Sort   // sort of the designated content
@@ -442,10 +443,10 @@ func (c *FnCtx) loadPlaceIn(st map[string]string, p *Place) string {
 		si := c.M.Struct(p.BaseSort)
 		return c.loadStructPath(st, si, p.Ref, p.Path)
 	case PCell:
-		base := fmt.Sprintf("(select %s %s)", c.heapIn(st, "H|"+string(p.BaseSort)), p.Ref)
+		base := fmt.Sprintf("(select %s %s)", c.heapIn(st, p.Heap), p.Ref)
 		return c.applyPath(base, p.BaseSort, p.Path)
 	case PElem:
-		base := fmt.Sprintf("(select (select %s %s) %s)", c.heapIn(st, "S|"+string(p.BaseSort)), p.Ref, p.Idx)
+		base := fmt.Sprintf("(select (select %s %s) %s)", c.heapIn(st, p.Heap), p.Ref, p.Idx)
 		return c.applyPath(base, p.BaseSort, p.Path)
 	case PGlobal:
 		base := c.heapIn(st, p.Name)
@@ -519,11 +520,11 @@ func (c *FnCtx) storePlace(p *Place, val string) {
 	case PStructPtr:
 		c.storeStructPath(c.M.Struct(p.BaseSort), p.Ref, p.Path, val)
 	case PCell:
-		hn := "H|" + string(p.BaseSort)
+		hn := p.Heap
 		old := fmt.Sprintf("(select %s %s)", c.H(hn), p.Ref)
 		c.setH(hn, fmt.Sprintf("(store %s %s %s)", c.H(hn), p.Ref, c.updPath(old, p.BaseSort, p.Path, val)))
 	case PElem:
-		hn := "S|" + string(p.BaseSort)
+		hn := p.Heap
 		row := fmt.Sprintf("(select %s %s)", c.H(hn), p.Ref)
 		old := fmt.Sprintf("(select %s %s)", row, p.Idx)
 		c.setH(hn, fmt.Sprintf("(store %s %s (store %s %s %s))", c.H(hn), p.Ref, row, p.Idx, c.updPath(old, p.BaseSort, p.Path, val)))
@@ -550,9 +551,11 @@ func (c *FnCtx) placeOfPointer(v Val, ptrType types.Type) *Place {
 	}
 	if at, ok := types.Unalias(elem).Underlying().(*types.Array); ok {
 		// pointer to array: row in slice heap; place denotes the whole row (only IndexAddr/Slice use it)
-		return &Place{Kind: PElem, Ref: v.T, Idx: "", BaseSort: c.M.SortOf(at.Elem()), Sort: es, GoType: elem}
+		hn, ees := c.M.SliceHeap(at.Elem())
+		return &Place{Kind: PElem, Heap: hn, Ref: v.T, Idx: "", BaseSort: ees, Sort: es, GoType: elem}
 	}
-	return &Place{Kind: PCell, Ref: v.T, BaseSort: es, Sort: es, GoType: elem}
+	hn, _ := c.M.CellHeap(elem)
+	return &Place{Kind: PCell, Heap: hn, Ref: v.T, BaseSort: es, Sort: es, GoType: elem}
 }
 
 // ---------- literals ----------
@@ -781,7 +784,6 @@ func (c *FnCtx) translate() {
 	for _, fv := range f.FreeVars {
 		v := c.paramVal("fv_"+mangle(fv.Name()), fv.Type())
 		c.vals[fv] = v
-		c.params[fv.Name()] = v
 		c.params["&"+fv.Name()] = v
 		if _, isPtr := types.Unalias(fv.Type()).Underlying().(*types.Pointer); isPtr {
 			c.gfact(fmt.Sprintf("(not (= %s 0))", v.T)) // captured variables are cells, never nil
@@ -989,6 +991,8 @@ func posOf(ins ssa.Instruction) token.Pos {
 	return ins.Pos()
 }
 
+// isInit: the synthetic package initializer (var initializers); user init#N functions run
+// after every var initializer of the package.
 func (c *FnCtx) isInit() bool {
-	return c.F.Name() == "init" || strings.HasPrefix(c.F.Name(), "init#")
+	return c.F.Name() == "init" && c.F.Synthetic != ""
 }
